@@ -60,6 +60,14 @@ func genRulesFileFor(r *Rng, prefix string, baseID int) *genRulesFile {
 			id = strconv.Itoa(baseID+(i+r.Intn(2))*10) + strconv.Itoa(r.Intn(10)) // seven digits sharing a neighbour's six
 		}
 		rule := genRule{ID: id}
+		if r.Chance(1, 8) {
+			// a commented-out copy of the rule stands before it
+			add("#SecRule ARGS \"@rx " + r.Pick(oldOperands) + "\" \\")
+			add("#    \"id:" + id + ",\\")
+			add("#    phase:2,\\")
+			add("#    severity:'CRITICAL'\"")
+			add("")
+		}
 		if r.Chance(1, 4) {
 			add("# This rule (id:" + r.Pick([]string{id, strconv.Itoa(baseID + 990), id + "1"}) + ") is a stricter sibling of " + strconv.Itoa(baseID))
 		}
@@ -117,7 +125,7 @@ func genRulesFileFor(r *Rng, prefix string, baseID int) *genRulesFile {
 	return f
 }
 
-var raBodies = []string{"newa\nnewb\n", "a+b$\n", "say \"hi\"\n", "back\\\\slash\n", "x y\n\\s+z\n", "##!+ i\nfoo\nfob\n", "\"@rx inner\n", "\" \\\\\n",
+var raBodies = []string{"newa\nnewb\n", "select \n", "##!+ i\nunion select \nunion all \n", "tab\t\n", " lead\n", "a+b$\n", "say \"hi\"\n", "back\\\\slash\n", "x y\n\\s+z\n", "##!+ i\nfoo\nfob\n", "\"@rx inner\n", "\" \\\\\n",
 	"##!> assemble\n  a\n  ##!=>\n  b\n##!<\n", "$1\n${2}\n", "^anchored$\n", "price\\$\n"}
 
 type updateCase struct {
@@ -258,6 +266,20 @@ func suiteUpdateCLI(env *Env, res *Result) {
 		if o.gen.Exit != 0 {
 			continue
 		}
+		// C12, whatever line update took for the rule's: after a successful update compare looks at
+		// the same line and reports it unchanged
+		c12Checked := false
+		if o.upd.Exit == 0 {
+			c12Checked = true
+			if !(o.cmp.Exit == 0 && strings.Contains(o.cmp.Stdout, "has not changed")) {
+				shape := "compare_after_update_reports_change"
+				if strings.Contains(o.gen.Stdout, "\"@rx ") || strings.Contains(o.gen.Stdout, "\"!@rx ") {
+					shape += "_regex_contains_marker"
+				}
+				res.addFailure(Failure{Kind: "C12", Shape: shape, Input: input,
+					Detail: fmt.Sprintf("update exit 0, then compare: exit %d stdout %q", o.cmp.Exit, clip(o.cmp.Stdout, 200))})
+			}
+		}
 		if !exists {
 			if o.after != orig {
 				shape := "update_wrong_target_chain_beyond"
@@ -351,7 +373,7 @@ func suiteUpdateCLI(env *Env, res *Result) {
 			}
 			return base
 		}
-		if !(o.cmp.Exit == 0 && strings.Contains(o.cmp.Stdout, "has not changed")) {
+		if !c12Checked && !(o.cmp.Exit == 0 && strings.Contains(o.cmp.Stdout, "has not changed")) {
 			res.addFailure(Failure{Kind: "C12", Shape: markerShape("compare_after_update_reports_change"), Input: input,
 				Detail: fmt.Sprintf("exit %d stdout %q", o.cmp.Exit, clip(o.cmp.Stdout, 200))})
 		}
